@@ -11,7 +11,7 @@ import numpy as np
 PID = 'C02'
 LEVEL = 'exploration'
 RULE = ('field lists: all singles, ordered pairs (quick: x 14 probe columns, thorough: all), all ordered subsets of each '
-        'derived-column cluster, "all", default; x cleaned on/off x subsamples off/A/A+B(pid); 2 superslabs x 3 halos; '
+        'derived-column cluster, "all", default; x cleaned on/off x subsamples off/A/A+B(pid); the same with passthrough=True over the raw column names; 2 superslabs x 3 halos; '
         'non-trivial = distinct (config, field list) with >=2 fields or a derived column')
 ASSUMPTIONS = ['asdf.open served by the in-memory double (validated in C01 conformance cases)',
                "the fields='all' load is the reference for each column (its unit correctness is C05's subject)"]
@@ -22,6 +22,26 @@ PROBES = ['id', 'N', 'L2_N', 'x_com', 'r100_L2com', 'sigmav3d_com', 'r25_com', '
 CLEAN_PROBES = ['N_total', 'npstartA_merge', 'haloindex', 'N_mainprog', 'v_L2com_mainprog', 'is_merged_to']
 
 CONFIGS = [dict(cleaned=c, subs=s) for c in (True, False) for s in ('off', 'A', 'ABpid')]
+# passthrough=True ("just load the raw data; subsample indices, filter_func and cleaning still applied"): the valid column names
+# are the raw columns of the files
+CONFIGS += [dict(cleaned=c, subs=s, passthrough=True) for c in (True, False) for s in ('off', 'A', 'ABpid')]
+PT_PROBES = ['id', 'N', 'x_com', 'sigmav_eigenvecs_com_u16', 'npstartA', 'npoutB']
+PT_CLEAN_PROBES = ['N_total', 'npstartA_merge', 'haloindex']
+
+
+def pt_field_lists(tier, cleaned):
+    from vf import catgen
+    nm = [n for n, _, _ in catgen.raw_layout()] + ([n for n, _, _ in catgen.clean_layout()] if cleaned else [])
+    for c in nm:
+        yield [c]
+    probes = PT_PROBES + (PT_CLEAN_PROBES if cleaned else [])
+    for c in (nm if tier == 'thorough' else nm[:12] + (nm[-13:] if cleaned else [])):
+        for d in probes:
+            if c != d:
+                yield [c, d]
+                yield [d, c]
+    yield ['npstartA', 'npoutA', 'npstartB', 'npoutB']
+    yield 'all'
 
 
 def names(cleaned):
@@ -80,7 +100,7 @@ def field_lists(tier, cleaned):
 def cases(tier, seed):
     for ci, cfg in enumerate(CONFIGS):
         seen = set()
-        for fl in field_lists(tier, cfg['cleaned']):
+        for fl in (pt_field_lists if cfg.get('passthrough') else field_lists)(tier, cfg['cleaned']):
             k = repr(fl)
             if k in seen:
                 continue
@@ -102,6 +122,10 @@ def worker_init():
     _CAT = catgen.Catalog([[V[1], V[2], V[3]], [V[4], V[0], V[2]]])
 
 
+def PT(cfg):
+    return dict(passthrough=True) if cfg.get('passthrough') else {}
+
+
 def subs_arg(s):
     return {'off': False, 'A': dict(A=True, pos=True), 'ABpid': dict(A=True, B=True, pid=True)}[s]
 
@@ -110,7 +134,7 @@ def ref(ci):
     if ci not in _REF:
         cfg = CONFIGS[ci]
         zdir, _ = _ENV.mount(_CAT)
-        c = _ENV.load(zdir, cleaned=cfg['cleaned'], subsamples=subs_arg(cfg['subs']), fields='all')
+        c = _ENV.load(zdir, cleaned=cfg['cleaned'], subsamples=subs_arg(cfg['subs']), fields='all', **PT(cfg))
         _REF[ci] = {k: np.array(c.halos[k]) for k in c.halos.colnames}
     return _REF[ci]
 
@@ -131,11 +155,11 @@ def run(case):
     zdir, _ = _ENV.mount(_CAT)
     fields = list(fl) if isinstance(fl, list) else fl
     try:
-        c = _ENV.load(zdir, cleaned=cfg['cleaned'], subsamples=subs_arg(cfg['subs']), fields=fields)
+        c = _ENV.load(zdir, cleaned=cfg['cleaned'], subsamples=subs_arg(cfg['subs']), fields=fields, **PT(cfg))
         if isinstance(fl, list):
             # the same list object used for a second load (the usual way to load several catalogs) must give the same table
-            c2 = _ENV.load(zdir, cleaned=cfg['cleaned'], subsamples=subs_arg(cfg['subs']), fields=fields)
-            missing = [x for x in fl if x not in c2.halos.colnames and not (cfg['cleaned'] and x in ('N', 'N_total')) and x in R]
+            c2 = _ENV.load(zdir, cleaned=cfg['cleaned'], subsamples=subs_arg(cfg['subs']), fields=fields, **PT(cfg))
+            missing = [x for x in fl if x not in c2.halos.colnames and not (cfg['cleaned'] and not cfg.get('passthrough') and x in ('N', 'N_total')) and x in R]
             if missing:
                 probs.append(dict(sig='second-load-with-same-list-differs', msg=f'cfg={cfg} fields={fl}: second load with the same list object lacks {missing}'))
             elif c2.halos.colnames != c.halos.colnames or any(not np.array_equal(np.asarray(c2.halos[k]), np.asarray(c.halos[k]), equal_nan=True) for k in c.halos.colnames):
@@ -149,7 +173,7 @@ def run(case):
     want = fl if isinstance(fl, list) else (list(R) if fl == 'all' else list(c.halos.colnames))
     for col in want:
         name = col
-        if cfg['cleaned'] and col in ('N_total', 'N'):
+        if cfg['cleaned'] and not cfg.get('passthrough') and col in ('N_total', 'N'):      # (cleaned loads present N_total as N; passthrough keeps the raw names)
             name = 'N'
         if name not in R:
             continue   # the 'all' load of this configuration does not return it either (re-indexed away)
@@ -164,9 +188,9 @@ def run(case):
     # index columns must agree across subsample configs only within the same config; all other columns also
     # with the subsample-free reference
     if cfg['subs'] != 'off':
-        R0 = ref(0 if cfg['cleaned'] else 3)
+        R0 = ref((0 if cfg['cleaned'] else 3) + (6 if cfg.get('passthrough') else 0))
         for col in want:
-            name = 'N' if (cfg['cleaned'] and col in ('N_total', 'N')) else col
+            name = 'N' if (cfg['cleaned'] and not cfg.get('passthrough') and col in ('N_total', 'N')) else col
             if name.startswith(('npstart', 'npout')) or name not in c.halos.colnames or name not in R0:
                 continue
             if not np.array_equal(np.array(c.halos[name]), R0[name], equal_nan=True):
